@@ -222,7 +222,7 @@ func runCheck(e *Engine, id, tier string, dir string) (*checkResult, error) {
 		}
 		res.obls = append(res.obls, los...)
 	}
-	timeout := 10
+	timeout := 20
 	all := false
 	if tier == "thorough" {
 		timeout = 60
@@ -231,7 +231,7 @@ func runCheck(e *Engine, id, tier string, dir string) (*checkResult, error) {
 	if v := os.Getenv("VC_TIMEOUT"); v != "" {
 		timeout, _ = strconv.Atoi(v)
 	}
-	if err := e.Discharge(res.obls, SolveOpts{TimeoutS: timeout, All: all, Dir: dir, Workers: 10}); err != nil {
+	if err := e.Discharge(res.obls, SolveOpts{TimeoutS: timeout, All: all, Dir: dir, Workers: 5}); err != nil {
 		return nil, err
 	}
 	res.wall = time.Since(t0).Seconds()
